@@ -242,9 +242,14 @@ Fixpoint rev_loop (s : fstate) (l : N) (snapshot : list (N * tower_status)) (rep
     end
   end.
 
-Definition f_revocation (s : fstate) (l : N) (replies : list (N * areply)) : fstate * fout :=
+(* the iteration order of the HashMap `towers`: the towers named in `order` first, in that order *)
+Definition reorder_towers (order : list N) (snap : list (N * tower_status)) : list (N * tower_status) :=
+  flat_map (fun t => match aget snap t with Some st => [(t, st)] | None => [] end) (nodupN order) ++
+  filter (fun kv => negb (memN (fst kv) order)) snap.
+
+Definition f_revocation (s : fstate) (l : N) (order : list N) (replies : list (N * areply)) : fstate * fout :=
   if poisoned s then (s, OPanic (SClient Site_poisoned)) else
-  let snapshot := map (fun kv => (fst kv, su_status (snd kv))) (c_towers (f_c s)) in
+  let snapshot := reorder_towers order (map (fun kv => (fst kv, su_status (snd kv))) (c_towers (f_c s))) in
   match rev_loop s l snapshot replies with
   | (s1, Some site) => (s1, OPanic site)
   | (s1, None) => (set_due s1 (fold_left (fun d kv => due_add d (fst kv, l)) snapshot (f_due s1)), OOk)
@@ -535,7 +540,7 @@ Definition f_restart (s : fstate) : fstate := restart_with s (c_db (f_c s)).
 (* (names carry an F prefix: all models are extracted into one OCaml file, Tower.v owns `op`, `step`, `run`) *)
 Inductive fop :=
 | FRegister (t : N) (rp : rreply)
-| FRevocation (l : N) (replies : list (N * areply))
+| FRevocation (l : N) (order : list N) (replies : list (N * areply))
 | FManagerTick (elapsed : list N)
 | FRetrierRun (t : N) (atts : list attempt)
 | FManualRetry (t : N)
@@ -545,7 +550,7 @@ Inductive fop :=
 Definition fstep (s : fstate) (o : fop) : fstate * fout :=
   match o with
   | FRegister t rp => f_register s t t rp
-  | FRevocation l replies => f_revocation s l replies
+  | FRevocation l order replies => f_revocation s l order replies
   | FManagerTick elapsed => f_manager_tick s elapsed
   | FRetrierRun t atts => let (s', o) := f_retrier_run s t atts in (s', ORun o)
   | FManualRetry t => f_manual_retry s t
@@ -599,3 +604,27 @@ Definition b2n (b : bool) : nat := if b then 1%nat else 0%nat.
 Definition record_count (d : db) (t l : N) : nat :=
   (b2n (has_receipt_row d t l) + b2n (has_pending_row d t l) + b2n (has_invalid_row d t l))%nat.
 Definition tower_row (d : db) (t : N) : bool := has_pk CS d T_towers [t].
+
+(* (tower, locator) is owed a record in state s: notified while registered, tower still registered, not proven misbehaving *)
+Definition owed (s : fstate) (t l : N) : bool :=
+  existsb (pairN_eqb (t, l)) (f_due s) && tower_row (c_db (f_c s)) t && negb (exists_misbehaving_proof (c_db (f_c s)) t).
+Definition owed_db (s : fstate) (d : db) (t l : N) : bool :=
+  existsb (pairN_eqb (t, l)) (f_due s) && tower_row d t && negb (exists_misbehaving_proof d t).
+
+(* the guard of the universal theorems: registertower is not used (a) to register again with a tower the client has
+   abandoned while the retry manager still tracks data for it (a retrier with a non-empty set or a queued message),
+   (b) against a tower already proven misbehaving.  Both are genuine defects of the code (see Properties/C05.v, C14.v). *)
+Definition tracked (s : fstate) (t : N) : list N :=
+  retrier_pending s t ++ flat_map (fun m => if N.eqb (fst m) t then rdata_set (snd m) else []) (f_chan s).
+Definition op_ok (s : fstate) (o : fop) : bool :=
+  match o with
+  | FRegister t _ =>
+    (amem (c_towers (f_c s)) t || match tracked s t with [] => true | _ => false end) &&
+    negb (exists_misbehaving_proof (c_db (f_c s)) t)
+  | _ => true
+  end.
+Fixpoint ops_ok (s : fstate) (ops : list fop) : bool :=
+  match ops with
+  | [] => true
+  | o :: rest => op_ok s o && ops_ok (fst (fstep s o)) rest
+  end.
